@@ -66,15 +66,18 @@ SetClaimsF(s, c) == IF ValidClaims(c) THEN [post |-> EvState(c, s.msg, TRUE), re
 AttachF(s, c) == [post |-> EvState(c, s.msg, TRUE), ret |-> Res(TRUE, NoMsg)]
 \* Sign / ValidateAndSign: reset envelope -> [validate] -> encode -> set alg -> sign -> marshal
 \* @type: ({ claims: Str, msg: { st: Str, payload: Str, alg: Str, sig: { k: Str, a: Str, p: Str } }, replaced: Bool }, { kind: Str, k: Str, a: Str }, Bool) => { post: { claims: Str, msg: { st: Str, payload: Str, alg: Str, sig: { k: Str, a: Str, p: Str } }, replaced: Bool }, ret: { ok: Bool, tok: { st: Str, payload: Str, alg: Str, sig: { k: Str, a: Str, p: Str } } } };
+\* With no claims attached the non-validating Sign encodes "no claims" as CBOR null and signs that: the token carries a
+\* payload that is no claims map ("garbage").  ValidateAndSign without claims is outside the model (the library
+\* dereferences the nil claims after resetting the envelope); ENext does not take that step.
 SignF(s, sg, validate) ==
-  IF s.claims = "nil" THEN [post |-> s, ret |-> Res(FALSE, NoMsg)]                         \* (outside the property: no claims attached)
-  ELSE IF validate /\ ~ValidClaims(s.claims)
+  IF validate /\ ~ValidClaims(s.claims)                   \* (in particular: no claims)
   THEN [post |-> EvState(s.claims, FreshMsg, FALSE), ret |-> Res(FALSE, NoMsg)]
-  ELSE LET m1 == [FreshMsg EXCEPT !.payload = s.claims, !.alg = sg.a] IN
+  ELSE LET p  == IF s.claims = "nil" THEN "garbage" ELSE s.claims
+           m1 == [FreshMsg EXCEPT !.payload = p, !.alg = sg.a] IN
        CASE sg.kind = "err"   -> [post |-> EvState(s.claims, m1, FALSE), ret |-> Res(FALSE, NoMsg)]
          [] sg.kind = "empty" -> [post |-> EvState(s.claims, m1, FALSE), ret |-> Res(FALSE, NoMsg)]   \* marshal refuses an empty signature
          [] sg.kind = "junk"  -> LET m2 == [m1 EXCEPT !.sig = Junk] IN [post |-> EvState(s.claims, m2, FALSE), ret |-> Res(TRUE, m2)]
-         [] sg.kind = "good"  -> LET m2 == [m1 EXCEPT !.sig = Sig(sg.k, sg.a, s.claims)] IN
+         [] sg.kind = "good"  -> LET m2 == [m1 EXCEPT !.sig = Sig(sg.k, sg.a, p)] IN
                                  [post |-> EvState(s.claims, m2, FALSE), ret |-> Res(TRUE, m2)]
 \* UnmarshalCOSE: reset envelope; envelope decode (message replaced only on success); claims := decode(payload), nil on error
 \* @type: ({ claims: Str, msg: { st: Str, payload: Str, alg: Str, sig: { k: Str, a: Str, p: Str } }, replaced: Bool }, { wf: Bool, payload: Str, alg: Str, sig: { k: Str, a: Str, p: Str } }) => { post: { claims: Str, msg: { st: Str, payload: Str, alg: Str, sig: { k: Str, a: Str, p: Str } }, replaced: Bool }, ret: { ok: Bool, tok: { st: Str, payload: Str, alg: Str, sig: { k: Str, a: Str, p: Str } } } };
@@ -130,7 +133,7 @@ Available(t) == t.sig \in {NoSig, Junk} \/ t.sig \in signed
 Unmarshal(t) == Available(t) /\ Do("UnmarshalCOSE", UnmarshalF(ev, t)) /\ UNCHANGED signed
 Verify(k)    == Do("Verify", VerifyF(ev, k)) /\ UNCHANGED signed
 ENext == \/ \E c \in ClaimIds : SetClaims(c) \/ Attach(c)
-         \/ \E sg \in Signers : SignWith(sg, FALSE) \/ SignWith(sg, TRUE)
+         \/ \E sg \in Signers : SignWith(sg, FALSE) \/ (ev.claims # "nil" /\ SignWith(sg, TRUE))
          \/ \E t \in TokenUniverse : Unmarshal(t)
          \/ \E k \in Keys : Verify(k)
 ESpec == EInit /\ [][ENext]_evars
@@ -150,7 +153,12 @@ GateNeverPassesInvalid == /\ (eret.op = "ValidateAndSign" /\ eret.ok => ValidCla
                           /\ (eret.op = "SetClaims" /\ eret.ok => ValidClaims(ev.claims))
 \* a returned token is the envelope now held, carries the signer's algorithm and the attached claims
 TokenIsEnvelope == (eret.op \in {"Sign", "ValidateAndSign"} /\ eret.ok) =>
-                      eret.tok = ev.msg /\ ev.msg.payload = ev.claims /\ ev.msg.sig # NoSig
+                      eret.tok = ev.msg /\ (ev.claims # "nil" => ev.msg.payload = ev.claims) /\ ev.msg.sig # NoSig
+\* The four predicates above speak about what the last call returned (eret), which the bounded instances keep out
+\* of their VIEW; TLC evaluates state invariants on new view-distinct states only, so they are checked as one
+\* action property - every step ends in a state satisfying them - which TLC evaluates on every transition
+PostConditions == FailedOpNoToken /\ FailedSignThenVerifyFails /\ GateNeverPassesInvalid /\ TokenIsEnvelope
+EveryStepPost == [][PostConditions']_evars
 \* a failed attempt does not prevent a later successful one: in every reachable state with claims attached
 \* a good signer succeeds (Sign always, ValidateAndSign when the claims are valid) ...
 GoodSignAlwaysSucceeds == ev.claims # "nil" =>
